@@ -1,7 +1,7 @@
 from vlib import runner, sysprops
 
 PARTIAL = [
-    'reclaim clause of the client monitor (table empty once every call resolved or dropped and the transport was writable): def C11_monitor_full_Statement, monitor only',
+    'the full client monitor (bound, table = timers, reclaimed once every call is resolved or dropped) is proved to accept every model trace with pairwise distinct call bodies and caller-chosen span ids (C11_monitor_full_accepts); without those two hypotheses C11_monitor_full_Statement stays a def',
     'known finding: limiter stall leaves the server table above the yielded-and-unfinished requests',
 ]
 
